@@ -310,6 +310,17 @@ class St:
                         bhi = INF if hi == INF else (hi - d) // kk
                         base.append((blo, bhi))
                     return self.assume(("in", x, IntSet(base)), True)
+            if a[0] == "mod" and isinstance(a[1], Lin):
+                # constrain the underlying atom: (k*x+d) mod m in S, for an x of small range
+                sa = a[1].single_atom()
+                if sa:
+                    x, kk, d = sa
+                    xs = self.aset(x)
+                    if xs.size() <= 4096:
+                        keep = [v for v in xs.values() if new.contains((kk * v + d) % a[2])]
+                        if not keep:
+                            return []
+                        return self.assume(("in", x, IntSet.of(*keep)), True)
             if a[0] == "fdiv":
                 # constrain the underlying atom instead:  fdiv(k*x+d, c) in [lo,hi]  <=>
                 # k*x+d in [c*lo, c*hi+c-1]
